@@ -1368,4 +1368,237 @@ theorem spec_lastOp_on_model (o : Oracle) (s : State) (hI : Inv o s) (hL : LInv 
       · rw [e] at hok; cases hok
       · rw [e]; simp
 
+/-- router operations do not touch the cluster side -/
+def isRouterOp : Op → Bool
+  | .addOrUpdateRouters _ => true
+  | .addRoute _ _ _ => true
+  | .removeAllRoutes _ _ => true
+  | _ => false
+
+theorem step_clusters_router (o : Oracle) (s : State) (op : Op) (h : isRouterOp op = true) :
+    (step o s op).1.clusters = s.clusters := by
+  cases op with
+  | addOrUpdateRouters cfg =>
+    simp only [step]
+    split
+    · split
+      · rfl
+      · simp
+    · simp
+  | addRoute rname domain r =>
+    simp only [step]
+    split
+    · rfl
+    · split
+      · rfl
+      · split
+        · rfl
+        · simp
+  | removeAllRoutes rname domain =>
+    simp only [step]
+    split
+    · rfl
+    · split
+      · rfl
+      · split
+        · rfl
+        · simp
+  | _ => simp [isRouterOp] at h
+
+/-! ## exact coherence when every supplied weight is inside the configured bounds -/
+
+/-- a weight inside the regenerated bounds `[MinHostWeight, MaxHostWeight]` -/
+def inRange (w : Nat) : Prop := Gen.Updates.minHostWeight ≤ (w : Int) ∧ (w : Int) ≤ Gen.Updates.maxHostWeight
+
+def hostsOk (l : List Host) : Prop := ∀ h ∈ l, inRange h.weight
+
+/-- the fresh-start clamp is the identity inside the bounds -/
+theorem clampHost_id {h : Host} (hr : inRange h.weight) : clampHost h = h := by
+  obtain ⟨h1, h2⟩ := hr
+  unfold clampHost Gen.Updates.transHostWeight
+  have e1 : ¬ ((h.weight : Int) > Gen.Updates.maxHostWeight) := by omega
+  have e2 : ¬ ((h.weight : Int) < Gen.Updates.minHostWeight) := by omega
+  simp [e1, e2]
+
+/-- the xDS endpoint clamp lands inside the bounds the fresh-start clamp preserves (the two code sites agree) -/
+theorem xds_inRange (w : Nat) : inRange (Gen.Updates.xdsEndpointWeight (w : Int)).toNat := by
+  unfold inRange Gen.Updates.xdsEndpointWeight Gen.Updates.minHostWeight Gen.Updates.maxHostWeight
+  by_cases h1 : (w : Int) < 1
+  · simp [h1]
+  · by_cases h2 : (w : Int) > 128
+    · simp [h1, h2]
+    · simp only [h1, h2, decide_false, Bool.false_eq_true, if_false]
+      omega
+
+theorem map_clamp_id {l : List Host} (h : hostsOk l) : l.map clampHost = l := by
+  induction l with
+  | nil => rfl
+  | cons x t ih =>
+    simp only [List.map_cons]
+    rw [clampHost_id (h x (by simp)), ih (fun y hy => h y (by simp [hy]))]
+
+theorem mem_removeSorted {l : List Host} {a : String} {h : Host} (hm : h ∈ removeSorted l a) : h ∈ l := by
+  induction l with
+  | nil => simp [removeSorted] at hm
+  | cons x t ih =>
+    unfold removeSorted at hm
+    split at hm
+    · split at hm
+      · exact List.mem_cons_of_mem _ hm
+      · exact hm
+    · simp only [List.mem_cons] at hm ⊢
+      rcases hm with rfl | hm
+      · left; rfl
+      · right; exact ih hm
+
+theorem mem_foldl_removeSorted (addrs : List String) {l : List Host} {h : Host}
+    (hm : h ∈ addrs.foldl removeSorted l) : h ∈ l := by
+  induction addrs generalizing l with
+  | nil => exact hm
+  | cons a r ih => exact mem_removeSorted (ih hm)
+
+theorem hostsOk_replace {hs : List Host} (h : hostsOk hs) (old : List Host) : hostsOk (replaceHosts hs old) :=
+  fun x hx => h x (mem_dedup hx)
+
+theorem hostsOk_append {hs old : List Host} (h : hostsOk hs) (ho : hostsOk old) : hostsOk (appendHosts hs old) := by
+  intro x hx
+  have := mem_dedup hx
+  simp only [List.mem_append] at this
+  rcases this with h1 | h1
+  · exact h x h1
+  · exact ho x h1
+
+theorem hostsOk_remove (addrs : List String) {old : List Host} (ho : hostsOk old) : hostsOk (removeHosts addrs old) := by
+  intro x hx
+  have := mem_foldl_removeSorted addrs (mem_dedup hx)
+  exact ho x ((sortByAddr_perm old).mem_iff.mp this)
+
+/-- every live host weight is inside the bounds -/
+def WInv (s : State) : Prop := ∀ n lc, s.clusters n = some lc → hostsOk lc.hosts
+
+theorem winv_init : WInv init := by
+  intro n lc h; simp [init, FMap.empty] at h
+
+theorem winv_updateHosts {s : State} (hW : WInv s) (c : String) (f : List Host → List Host)
+    (hf : ∀ old, hostsOk old → hostsOk (f old)) : WInv (updateHosts s c f).1 := by
+  cases hc : s.clusters c with
+  | none => rw [updateHosts_none f hc]; exact hW
+  | some lc =>
+    obtain ⟨_, h2, h3⟩ := updateHosts_some f hc
+    intro n lc' hn
+    by_cases e : n = c
+    · subst e
+      rw [h2] at hn
+      cases hn
+      exact hf _ (hW n lc hc)
+    · rw [h3 n e] at hn
+      exact hW n lc' hn
+
+theorem winv_updateCluster {s : State} (hW : WInv s) (name : String) (tag : Nat) (cfgHosts : List Host)
+    (handler : Option LiveCluster → List Host) (hh : hostsOk (handler (s.clusters name))) :
+    WInv (updateCluster s name tag cfgHosts handler).1 := by
+  intro n lc hn
+  simp only [updateCluster, refreshHosts_clusters] at hn
+  by_cases e : n = name
+  · subst e
+    have : (if Gen.Updates.updateCluster_recordsClusterConfig = true then
+        { s with cstore := s.cstore.set n ⟨tag, cfgHosts⟩ } else s).clusters = s.clusters := by split <;> rfl
+    simp only [FMap.set_same, Option.some.injEq] at hn
+    subst hn
+    exact hh
+  · rw [FMap.set_other _ _ e] at hn
+    have : (if Gen.Updates.updateCluster_recordsClusterConfig = true then
+        { s with cstore := s.cstore.set name ⟨tag, cfgHosts⟩ } else s).clusters = s.clusters := by split <;> rfl
+    rw [this] at hn
+    exact hW n lc hn
+
+theorem winv_removeCluster {s : State} (hW : WInv s) (name : String) : WInv (removeCluster s name) := by
+  intro n lc hn
+  unfold removeCluster at hn
+  split at hn
+  · exact hW n lc hn
+  · by_cases e : n = name
+    · subst e; simp at hn
+    · simp only [FMap.del_other _ e] at hn
+      exact hW n lc hn
+
+theorem winv_foldl_removeCluster (names : List String) {s : State} (hW : WInv s) : WInv (names.foldl removeCluster s) := by
+  induction names generalizing s with
+  | nil => exact hW
+  | cons n r ih => exact ih (winv_removeCluster hW n)
+
+/-- the hosts an operation supplies at run time have weights inside the bounds (xDS endpoints: carry a weight at all) -/
+def opOk : Op → Prop
+  | .addOrUpdateClusterAndHost _ _ _ hosts => hostsOk hosts
+  | .updateHosts _ hosts => hostsOk hosts
+  | .appendHosts _ hosts => hostsOk hosts
+  | .xdsEndpoints as => ∀ a ∈ as, ∀ loc ∈ a.2, ∀ x ∈ loc, x.lbWeight.isSome
+  | _ => True
+
+theorem hostsOk_conv {locs : List (List XHost)} (h : ∀ loc ∈ locs, ∀ x ∈ loc, x.lbWeight.isSome) :
+    hostsOk ((locs.map (·.map convHost)).flatten) := by
+  intro y hy
+  simp only [List.mem_flatten, List.mem_map] at hy
+  obtain ⟨l, ⟨loc, hl, rfl⟩, hh⟩ := hy
+  obtain ⟨x, hx, rfl⟩ := List.mem_map.mp hh
+  have := h loc hl x hx
+  cases hw : x.lbWeight with
+  | none => simp [hw] at this
+  | some w => simp only [convHost, hw]; exact xds_inRange w
+
+theorem winv_foldl_xds (as : List (String × List (List XHost))) {acc : State × Bool} (hW : WInv acc.1)
+    (h : ∀ a ∈ as, ∀ loc ∈ a.2, ∀ x ∈ loc, x.lbWeight.isSome) :
+    WInv (as.foldl (fun (acc : State × Bool) a =>
+      let r := xdsAssign acc.1 a.1 a.2
+      (r.1, acc.2 && r.2)) acc).1 := by
+  induction as generalizing acc with
+  | nil => exact hW
+  | cons a r ih =>
+    simp only [List.foldl_cons]
+    apply ih
+    · simp only [xdsAssign_eq]
+      exact winv_updateHosts hW _ _ (fun old _ => hostsOk_replace (hostsOk_conv (h a (by simp))) old)
+    · intro b hb; exact h b (by simp [hb])
+
+theorem winv_step (o : Oracle) {s : State} (hW : WInv s) (op : Op) (hop : opOk op) : WInv (step o s op).1 := by
+  cases op with
+  | routersNil => exact hW
+  | addOrUpdateRouters cfg =>
+    intro n lc hn; rw [step_clusters_router o s (.addOrUpdateRouters cfg) rfl] at hn; exact hW n lc hn
+  | addRoute rname domain r =>
+    intro n lc hn; rw [step_clusters_router o s (.addRoute rname domain r) rfl] at hn; exact hW n lc hn
+  | removeAllRoutes rname domain =>
+    intro n lc hn; rw [step_clusters_router o s (.removeAllRoutes rname domain) rfl] at hn; exact hW n lc hn
+  | addOrUpdateCluster m tag cfgHosts =>
+    apply winv_updateCluster hW
+    cases hc : s.clusters m with
+    | none => intro x hx; simp [inheritHosts] at hx
+    | some oc => exact hW m oc hc
+  | addOrUpdateClusterAndHost m tag cfgHosts hosts => exact winv_updateCluster hW _ _ _ _ (hostsOk_replace hop [])
+  | addClusterNil m => exact hW
+  | updateHosts c hs => exact winv_updateHosts hW _ _ (fun old _ => hostsOk_replace hop old)
+  | appendHosts c hs => exact winv_updateHosts hW _ _ (fun old ho => hostsOk_append hop ho)
+  | removeHosts c as => exact winv_updateHosts hW _ _ (fun old ho => hostsOk_remove as ho)
+  | removeClusters names =>
+    simp only [step]
+    split
+    · exact winv_foldl_removeCluster names hW
+    · exact hW
+  | xdsEndpoints as =>
+    simp only [step]
+    exact winv_foldl_xds as hW hop
+  | addOrUpdateListener lc =>
+    intro n c hn; simp only [step] at hn; rw [(addOrUpdateListener_others s lc).2.2.1] at hn; exact hW n c hn
+  | deleteListener m =>
+    intro n c hn; simp only [step] at hn; rw [(deleteListener_others s m).2.2.1] at hn; exact hW n c hn
+
+theorem winv_run (o : Oracle) (ops : List Op) (hops : ∀ op ∈ ops, opOk op) : WInv (run o ops) := by
+  suffices h : ∀ (s : State), WInv s → WInv (runFrom o s ops) from h init winv_init
+  induction ops with
+  | nil => intro s hW; exact hW
+  | cons op r ih =>
+    intro s hW
+    simp only [runFrom, List.foldl_cons]
+    exact ih (fun op' h' => hops op' (by simp [h'])) _ (winv_step o hW op (hops op (by simp)))
+
 end MosnVerif.Model.Updates
